@@ -6,6 +6,7 @@ import (
 	"fmt"
 
 	"github.com/tellor-io/layer/x/oracle/types"
+	regTypes "github.com/tellor-io/layer/x/registry/types"
 
 	errorsmod "cosmossdk.io/errors"
 
@@ -21,6 +22,20 @@ func (k msgServer) UpdateCyclelist(ctx context.Context, req *types.MsgUpdateCycl
 		return nil, errorsmod.Wrapf(types.ErrInvalidSigner, "invalid authority; expected %s, got %s", k.keeper.GetAuthority(), req.Authority)
 	}
 
+	// every entry is rotated into a round by the EndBlocker, which needs a non-empty list of
+	// decodable query data with a registered data spec; anything else would halt the chain there
+	if len(req.Cyclelist) == 0 {
+		return nil, errorsmod.Wrapf(types.ErrInvalidQueryData, "cyclelist cannot be empty")
+	}
+	for _, queryData := range req.Cyclelist {
+		queryType, _, err := regTypes.DecodeQueryType(queryData)
+		if err != nil {
+			return nil, errorsmod.Wrapf(types.ErrInvalidQueryData, "cyclelist entry %s: %v", hex.EncodeToString(queryData), err)
+		}
+		if _, err := k.keeper.GetDataSpec(ctx, queryType); err != nil {
+			return nil, errorsmod.Wrapf(types.ErrInvalidQueryData, "cyclelist entry has no registered data spec for query type %s: %v", queryType, err)
+		}
+	}
 	if err := k.keeper.Cyclelist.Clear(ctx, nil); err != nil {
 		return nil, err
 	}
